@@ -455,6 +455,10 @@ def check_delta_helper(ctx, g, wadd):
         calls = p.calls(wadd)
         gt = [lt_truth(a, lambda z: z == OLD, lambda z: z == NEW) for a in p.atoms]
         gt = [x for x in gt if x is not None]
+        if not gt:
+            # `new >= old` splits the same way: for new == old either branch adds 0
+            from core import le_truth
+            gt = [x for x in [le_truth(a, lambda z: z == OLD, lambda z: z == NEW) for a in p.atoms] if x is not None]
         if len(calls) != 1 or not gt:
             return False
         amt = calls[0].args[1]
@@ -483,6 +487,9 @@ def check_delta_paths(ctx, f, wadd, new, old):
             continue
         gt = [lt_truth(a, is_old, is_new) for a in p.atoms]
         gt = [x for x in gt if x is not None]
+        if not gt:
+            from core import le_truth
+            gt = [x for x in [le_truth(a, is_old, is_new) for a in p.atoms] if x is not None]
         if len(calls) != 1 or not gt:
             return False
         amt = calls[0].args[1]
